@@ -143,7 +143,13 @@ func timeGen(exact bool) func(*rand.Rand, reflect.Value, string) {
 				return // zero time: written as null in a nullable position
 			}
 			if t.IsZero() && !strings.Contains(schema, "null") {
-				t = t.Add(time.Second)
+				// the zero time is written as null by the time codecs; in a non-nullable position use the next
+				// representable instant of the logical type instead (a whole day for dates)
+				if strings.Contains(schema, "date") {
+					t = t.Add(24 * time.Hour)
+				} else {
+					t = t.Add(time.Second)
+				}
 			}
 			v.Set(reflect.ValueOf(t))
 		case nullTimeT:
